@@ -1,6 +1,9 @@
 package main
 
 import (
+	"time"
+
+	"github.com/zenon-network/go-zenon/p2p"
 	"github.com/zenon-network/go-zenon/protocol"
 	"github.com/zenon-network/go-zenon/protocol/downloader"
 )
@@ -29,4 +32,9 @@ func collectC15() {
 	cU("ErrGenesisBlockMismatch", protocol.ErrGenesisBlockMismatch)
 	cU("ErrNoStatusMsg", protocol.ErrNoStatusMsg)
 	cU("ErrExtraStatusMsg", protocol.ErrExtraStatusMsg)
+	// connection timers in seconds
+	cI("HandshakeTimeoutSec", int64(p2p.VerifHandshakeTimeout/time.Second))
+	cI("FrameReadTimeoutSec", int64(p2p.VerifFrameReadTimeout/time.Second))
+	cI("FrameWriteTimeoutSec", int64(p2p.VerifFrameWriteTimeout/time.Second))
+	cI("PingIntervalSec", int64(p2p.VerifPingInterval/time.Second))
 }
